@@ -1650,10 +1650,11 @@ class ContactHandler(Messenger, dbus.service.Object):
         # send next segment
         flg = 0
         ext_items = []
-        if 'private_extensions' in self._config.enable_test:
-            ext_items.append(messages.TransferExtendHeader(flags=messages.SessionExtendHeader.Flag.CRITICAL) / extend.TransferPrivateDummy())
         if self._tx_length == 0:
             flg |= messages.TransferSegment.Flag.START
+            # extension items are allowed in the START segment only
+            if 'private_extensions' in self._config.enable_test:
+                ext_items.append(messages.TransferExtendHeader(flags=messages.SessionExtendHeader.Flag.CRITICAL) / extend.TransferPrivateDummy())
             ext_items.append(
                 messages.TransferExtendHeader() / extend.TransferTotalLength(total_length=self._tx_tmp.total_length)
             )
